@@ -21,11 +21,23 @@ struct nv_igrids
   int64_t n;           /* size() */
   int64_t posG;        /* position of G among the specified elements, -1: absent */
   int64_t spec;        /* elements [0, spec) are specified; [spec, n) are valid but unspecified (tail left by remove_if) */
+  _Bool   all_src;     /* ghost: every element is the grid point src_id (local_search with a radius beyond the grid extent) */
+  int64_t src_id;      /* ghost: the grid point local_search searched around */
   struct nv_igrid cur; /* scratch: the element handed out by operator[] */
 };
 struct nv_prow { int64_t row; };                                    /* params.tensor(i) / the copy stored in a step */
 struct nv_step { struct nv_igrid m_igrid; struct nv_prow m_param; double m_value; };
-struct nv_steps { int64_t n; int64_t cntG; double valG; int64_t rowG; _Bool finite; _Bool sorted; };
+struct nv_steps
+{
+  int64_t n;             /* size() */
+  int64_t cntG;          /* number of steps evaluated at G */
+  double  valG;          /* m_value of the step at G */
+  int64_t rowG;          /* which row of the callback's parameter matrix its m_param was copied from */
+  _Bool   finite;        /* every stored m_value is finite */
+  _Bool   sorted;        /* sorted by m_value */
+  struct nv_step front;  /* scratch: the element handed out by begin()-> */
+  _Bool   has_front;     /* front was handed out: its grid point is (and stays: steps only grow) one of the stored steps */
+};
 struct nv_params { int64_t rows; int64_t posG; int64_t spec; };     /* map_to_grid(spaces, igrids): row k <-> igrids[k] */
 struct nv_values { int64_t n; int64_t posG; double vG; int64_t bad; };/* callback(params): value at G's row, first non-finite position */
 struct nv_spaces { int64_t n; };
@@ -35,10 +47,12 @@ struct nv_lambda { int32_t dummy; };                                /* closure o
 
 /* ghost observations of the user callback */
 int64_t nv_cb_calls;   /* number of callback invocations */
+int64_t nv_cb_points;  /* number of grid points it was asked to evaluate, in total */
 int64_t nv_cb_evalG;   /* number of times the callback was asked to evaluate G */
 double  nv_cb_vG;      /* the value it returned for G */
 int64_t nv_cb_bad;     /* position of the first non-finite value it returned (-1: all finite) */
 
+int64_t nv_hint_id; _Bool nv_hint_on;   /* ghost: while on, "a step at grid point nv_hint_id is stored" (set by remove_if's model) */
 _Bool tuner_evaluate_pred(struct nv_step* step, struct nv_igrid* igrid);
 _Bool tuner_evaluate_op(struct nv_igrid* igrid, struct nv_steps* steps);
 
@@ -51,8 +65,10 @@ static int64_t nv_find_if_steps(struct nv_steps* steps, struct nv_igrid* igrid)
 {
   struct nv_step sG; sG.m_igrid.id = nv_G; sG.m_param.row = steps->rowG; sG.m_value = steps->valG;
   _Bool hitG = steps->cntG > 0 && tuner_evaluate_pred(&sG, igrid);
+  struct nv_step sH; sH.m_igrid.id = nv_hint_id; sH.m_param.row = nv_nondet_int64_t(); sH.m_value = nv_nondet_double();
+  _Bool hitH = nv_hint_on && tuner_evaluate_pred(&sH, igrid);     /* another step known to be stored */
   _Bool found = nv_nondet__Bool();
-  if (hitG) found = 1;
+  if (hitG || hitH) found = 1;
   else if (found)
   {
     struct nv_step o; o.m_igrid.id = nv_nondet_int64_t(); o.m_param.row = nv_nondet_int64_t(); o.m_value = nv_nondet_double();
@@ -70,11 +86,29 @@ static int64_t nv_remove_if_igrids(struct nv_igrids* v, struct nv_steps* steps)
 {
   int64_t m = nv_nondet_int64_t();
   __CPROVER_assume(0 <= m && m <= v->n);
+  _Bool removedG = 0;
   if (v->posG >= 0)
   {
     struct nv_igrid g; g.id = nv_G;
-    if (tuner_evaluate_op(&g, steps)) { __CPROVER_assume(m < v->n); v->posG = -1; }
+    removedG = tuner_evaluate_op(&g, steps);
+    if (removedG) { __CPROVER_assume(m < v->n); v->posG = -1; }
     else { int64_t p = nv_nondet_int64_t(); __CPROVER_assume(0 <= p && p <= v->posG && p < m); v->posG = p; }
+  }
+  if (m < v->n && !removedG)      /* something else was removed: some element other than G satisfies the predicate */
+  {
+    struct nv_igrid w; w.id = nv_nondet_int64_t();
+    __CPROVER_assume(w.id != nv_G);
+    __CPROVER_assume(tuner_evaluate_op(&w, steps));
+  }
+  if (v->n > 0 && v->all_src && steps->has_front && v->src_id == steps->front.m_igrid.id)
+  {
+    /* every element is the grid point src_id, which is stored in steps (it was handed out by begin()->): if the real
+       predicate holds for it, every element is removed */
+    struct nv_igrid w; w.id = v->src_id;
+    nv_hint_id = w.id; nv_hint_on = 1;
+    _Bool r = tuner_evaluate_op(&w, steps);
+    nv_hint_on = 0;
+    if (r) __CPROVER_assume(m == 0);
   }
   v->spec = m;       /* the tail [m, n) is left valid but unspecified */
   return m;
@@ -112,8 +146,8 @@ static struct nv_values nv_callback(const struct nv_params* p)
   struct nv_values r; r.n = p->rows; r.posG = p->posG; r.vG = nv_nondet_double(); r.bad = nv_nondet_int64_t();
   __CPROVER_assume(-1 <= r.bad && r.bad < r.n);
   if (r.posG >= 0) __CPROVER_assume((r.bad >= 0 && r.bad <= r.posG) ? (r.bad < r.posG || !NV_ISFIN(r.vG)) : NV_ISFIN(r.vG));
-  __CPROVER_assume(nv_cb_calls < NV_MAXN);
   nv_cb_calls = nv_cb_calls + 1;
+  nv_cb_points = nv_cb_points + p->rows;
   if (p->posG >= 0) { nv_cb_evalG = nv_cb_evalG + 1; nv_cb_vG = r.vG; }
   if (p->spec < p->rows && nv_nondet__Bool()) nv_cb_evalG = nv_cb_evalG + 1;   /* an unspecified row may be G again */
   nv_cb_bad = r.bad;
@@ -146,10 +180,12 @@ static void nv_steps_sort(struct nv_steps* s, int64_t first, int64_t last)
   if (first == 0 && last == s->n) s->sorted = 1;
 }
 
-#define NV_STEPS_WF(s) (0 <= (s)->n && (s)->n <= NV_MAXN && 0 <= (s)->cntG && (s)->cntG <= 1 && (s)->cntG <= (s)->n \
+#define NV_STEPS_WF(s) (0 <= (s)->n && (s)->n <= 4 * NV_MAXN && 0 <= (s)->cntG && (s)->cntG <= 1 && (s)->cntG <= (s)->n \
   && (s)->finite && (s)->sorted && ((s)->cntG == 0 || NV_ISFIN((s)->valG)))
 #define NV_OLD(x) __CPROVER_old(x)
 #define NV_G_IS_NEW (NV_OLD(igrids.posG) >= 0 && NV_OLD(steps->cntG) == 0)
+#define NV_EVALG (nv_cb_evalG - NV_OLD(nv_cb_evalG))    /* how often this call had G evaluated */
+#define NV_CALLS (nv_cb_calls - NV_OLD(nv_cb_calls))    /* callback invocations of this call */
 
 /* evaluate(spaces, callback, igrids, logger, steps).
  * requires: the candidates are duplicate-free (G occurs at most once: callers pass {avg_igrid} or local_search's output,
@@ -159,24 +195,39 @@ static void nv_steps_sort(struct nv_steps* s, int64_t first, int64_t last)
 __CPROVER_requires(__CPROVER_is_fresh(spaces, sizeof(*spaces)) && __CPROVER_is_fresh(callback, sizeof(*callback)) \
   && __CPROVER_is_fresh(nv_unnamed, sizeof(*nv_unnamed)) && __CPROVER_is_fresh(steps, sizeof(*steps))) \
 __CPROVER_requires(0 <= igrids.n && igrids.n <= NV_MAXN && -1 <= igrids.posG && igrids.posG < igrids.n && igrids.spec == igrids.n && NV_STEPS_WF(steps)) \
-__CPROVER_requires(nv_cb_calls == 0 && nv_cb_evalG == 0 && nv_cb_bad == -1) \
-__CPROVER_assigns(*steps, nv_cb_calls, nv_cb_evalG, nv_cb_vG, nv_cb_bad, nv_thrown) \
+/* consistency of the ghost annotations with G */ \
+__CPROVER_requires((!igrids.all_src || igrids.n == 0 || (igrids.src_id == nv_G) == (igrids.posG >= 0)) \
+  && (!steps->has_front || steps->front.m_igrid.id != nv_G || steps->cntG > 0) && !nv_hint_on) \
+/* ghost counters: in range (the callers' invariants bound them by the number of steps) */ \
+__CPROVER_requires(0 <= nv_cb_calls && nv_cb_calls <= 8 * NV_MAXN && 0 <= nv_cb_evalG && nv_cb_evalG <= 8 * NV_MAXN && 0 <= nv_cb_points && nv_cb_points <= 8 * NV_MAXN && !nv_thrown) \
+__CPROVER_assigns(*steps, nv_cb_calls, nv_cb_points, nv_cb_evalG, nv_cb_vG, nv_cb_bad, nv_thrown, nv_hint_id, nv_hint_on) \
+/* ranges first (so that the clauses below are free of overflow when the contract is used at a call site) */ \
+__CPROVER_ensures(NV_OLD(nv_cb_evalG) <= nv_cb_evalG && nv_cb_evalG <= NV_OLD(nv_cb_evalG) + 1 && NV_OLD(nv_cb_calls) <= nv_cb_calls && nv_cb_calls <= NV_OLD(nv_cb_calls) + 1 \
+  && NV_OLD(nv_cb_points) <= nv_cb_points && nv_cb_points <= NV_OLD(nv_cb_points) + NV_OLD(igrids.n) && 0 <= steps->n && steps->n <= NV_OLD(steps->n) + NV_OLD(igrids.n) \
+  && (nv_cb_calls == NV_OLD(nv_cb_calls) || (-1 <= nv_cb_bad && nv_cb_bad < NV_OLD(igrids.n))) && 0 <= steps->cntG && steps->cntG <= NV_OLD(steps->cntG) + 1) \
 /* the callback is asked to evaluate G exactly when G is a candidate that was never evaluated: never twice, only candidates */ \
-__CPROVER_ensures(nv_cb_evalG == (NV_G_IS_NEW ? 1 : 0) && nv_cb_calls <= 1) \
+__CPROVER_ensures(NV_EVALG == (NV_G_IS_NEW ? 1 : 0)) \
 /* a non-finite value is rejected with an exception, and only then; it is never stored */ \
-__CPROVER_ensures(nv_thrown == (nv_cb_calls == 1 && nv_cb_bad >= 0)) \
+__CPROVER_ensures(nv_thrown == (NV_CALLS == 1 && nv_cb_bad >= 0)) \
 __CPROVER_ensures(steps->finite && (steps->cntG == 0 || NV_ISFIN(steps->valG))) \
-__CPROVER_ensures(nv_thrown ==> steps->n == NV_OLD(steps->n) + nv_cb_bad) \
+__CPROVER_ensures(!nv_thrown || steps->n == NV_OLD(steps->n) + nv_cb_bad) \
 /* on return: old steps plus one step per evaluated point, holding the callback's value; still duplicate-free; sorted */ \
-__CPROVER_ensures(!nv_thrown ==> (steps->sorted && steps->cntG == NV_OLD(steps->cntG) + nv_cb_evalG && steps->cntG <= 1)) \
-__CPROVER_ensures(!nv_thrown ==> (nv_cb_evalG == 1 ? NV_SAME(steps->valG, nv_cb_vG) : NV_SAME(steps->valG, NV_OLD(steps->valG)))) \
-__CPROVER_ensures(!nv_thrown ==> (steps->n >= NV_OLD(steps->n) && steps->n - NV_OLD(steps->n) <= NV_OLD(igrids.n))) \
+__CPROVER_ensures(nv_thrown || (steps->sorted && steps->cntG == NV_OLD(steps->cntG) + NV_EVALG && steps->cntG <= 1)) \
+__CPROVER_ensures(nv_thrown || (NV_EVALG == 1 ? NV_SAME(steps->valG, nv_cb_vG) : NV_SAME(steps->valG, NV_OLD(steps->valG)))) \
+__CPROVER_ensures(nv_thrown || steps->n >= NV_OLD(steps->n)) \
+/* every candidate is the (stored) grid point the search started from: nothing new */ \
+__CPROVER_ensures((NV_OLD(igrids.all_src) && NV_OLD(steps->has_front) && NV_OLD(igrids.src_id) == NV_OLD(steps->front.m_igrid.id)) ==> (!nv_thrown && !__CPROVER_return_value)) \
+__CPROVER_ensures(!nv_hint_on && steps->has_front == NV_OLD(steps->has_front) && steps->front.m_igrid.id == NV_OLD(steps->front.m_igrid.id)) \
+/* nothing was evaluated before: every candidate is evaluated */ \
+__CPROVER_ensures(nv_thrown || NV_OLD(steps->n) > 0 || steps->n == NV_OLD(igrids.n)) \
+/* every point the callback was asked to evaluate became a step */ \
+__CPROVER_ensures(nv_thrown || nv_cb_points - NV_OLD(nv_cb_points) == steps->n - NV_OLD(steps->n)) \
 /* returns true iff something new was evaluated; false only if every candidate had been evaluated before */ \
-__CPROVER_ensures(!nv_thrown ==> (__CPROVER_return_value == (steps->n > NV_OLD(steps->n)) && __CPROVER_return_value == (nv_cb_calls == 1))) \
+__CPROVER_ensures(nv_thrown || (__CPROVER_return_value == (steps->n > NV_OLD(steps->n)) && __CPROVER_return_value == (NV_CALLS == 1))) \
 __CPROVER_ensures((!nv_thrown && !__CPROVER_return_value) ==> (NV_OLD(igrids.posG) < 0 || NV_OLD(steps->cntG) > 0))
 
 #define NV_LOOP_tuner_evaluate_1 \
-__CPROVER_assigns(itrial, *steps, igrids.cur, nv_thrown) \
+__CPROVER_assigns(itrial, steps->n, steps->cntG, steps->valG, steps->rowG, steps->finite, steps->sorted, igrids.cur, nv_thrown) \
 __CPROVER_loop_invariant(0 <= itrial && itrial <= values.n && values.n == igrids.n && igrids.posG == values.posG && !nv_thrown \
   && steps->n == (int64_t)before + itrial && (values.bad < 0 || itrial <= values.bad) && steps->finite \
   && steps->cntG == __CPROVER_loop_entry(steps->cntG) + ((values.posG >= 0 && values.posG < itrial) ? 1 : 0) \
@@ -189,7 +240,7 @@ __CPROVER_requires(__CPROVER_is_fresh(step, sizeof(*step)) && __CPROVER_is_fresh
 __CPROVER_assigns() \
 __CPROVER_ensures(__CPROVER_return_value == (step->m_igrid.id == igrid->id))
 #define NV_CONTRACT_tuner_evaluate_op \
-__CPROVER_requires(__CPROVER_is_fresh(steps, sizeof(*steps)) && __CPROVER_is_fresh(igrid, sizeof(*igrid)) && NV_STEPS_WF(steps)) \
+__CPROVER_requires(__CPROVER_is_fresh(steps, sizeof(*steps)) && __CPROVER_is_fresh(igrid, sizeof(*igrid)) && NV_STEPS_WF(steps) && !nv_hint_on) \
 __CPROVER_assigns() \
 __CPROVER_ensures(igrid->id == nv_G ==> __CPROVER_return_value == (steps->cntG > 0))
 
